@@ -30,7 +30,7 @@ From Thunder Require Import Lib.Json Lib.JsonNorm DiffMerge.Model DiffMerge.Proo
      DiffMerge.ProofsMain DiffMerge.ProofsSelf DiffMerge.ProofsJS.
 From Thunder Require Import DiffMerge.GModel DiffMerge.GBase DiffMerge.GMergeGo DiffMerge.GMain DiffMerge.GJS DiffMerge.GSelf
      DiffMerge.GCompress DiffMerge.GArray DiffMerge.GSer DiffMerge.GExact DiffMerge.GReorder DiffMerge.GLocal DiffMerge.GClients
-     DiffMerge.GWellFormed DiffMerge.GSerClients DiffMerge.GInst DiffMerge.GWitness.
+     DiffMerge.GWellFormed DiffMerge.GSerClients DiffMerge.GInst DiffMerge.GWitness DiffMerge.GBridge.
 Import ListNotations.
 Open Scope string_scope.
 
@@ -179,6 +179,21 @@ Theorem diff_equal_is_nil :
   forall old new : val A, vwf_gen strict old = true -> vwf_gen strict new = true -> vjeq old new -> VDiff old new = None.
 Proof. intros A O L G strict old new Ho Hn Hj. exact (vjeq_diff_none L G strict new old Ho Hn Hj). Qed.
 Print Assumptions diff_equal_is_nil.
+
+(** DiffMerge/Model.v - the [json] model of the first part of this file, which the Server models of C02 and C17 are
+    built on - IS the generic model at the client's scalar domain: [emb : json -> val watom] commutes with
+    StripKey and Diff.  So the statements of this part about [VDiff] hold of [Model.Diff]; the first of them: *)
+Theorem json_model_is_an_instance :
+  forall old new : json,
+    VDiff (O := wops false) (emb old) (emb new) = option_map emb (Diff old new)
+    /\ emb (strip old) = vstrip (emb old).
+Proof. intros old new. exact (conj (emb_Diff old new) (emb_strip old)). Qed.
+Print Assumptions json_model_is_an_instance.
+
+Theorem diff_nil_iff_equal_json :
+  forall old new : json, wf old = true -> wf new = true -> (Diff old new = None <-> jeq old new).
+Proof. exact Diff_nil_iff_jeq. Qed.
+Print Assumptions diff_nil_iff_equal_json.
 
 (** StripKey is idempotent, leaves no "__key" anywhere, and fixes exactly the key-free values. *)
 Theorem stripkey_idempotent : forall (A : Type) (v : val A), vstrip (vstrip v) = vstrip v.
